@@ -111,16 +111,22 @@ func c18Cluster(name string, amax, cmax int32) *proxyv1alpha1.UpstreamCluster {
 // longer than the margin the generator keeps around the 3 s boundary, the ages the pass saw are not
 // the virtual ones: such a run is discarded and the case is run again from scratch (the decision
 // depends only on the measured overrun, never on what was observed).
-const clockMargin = 200 * time.Millisecond
+const clockMargin = 100 * time.Millisecond
+
+// A virtual age a is realised as a real age in (a - clockBias, a - clockBias + clockMargin): virtual ages
+// are multiples of 100 ms, so "older than 3 s" comes out exactly as in the virtual arithmetic, also
+// for an age of exactly 3 s (time.After is strict), as long as no age lies within (3000, 3150) ms,
+// which the generator excludes.
+const clockBias = 150 * time.Millisecond
 
 func runC18(raw json.RawMessage) interface{} {
-	for attempt := 0; attempt < 20; attempt++ {
+	for attempt := 0; attempt < 60; attempt++ {
 		obs, overrun := runC18Once(raw)
 		if !overrun {
 			return obs
 		}
 	}
-	panic("virtual clock overrun in 20 consecutive attempts")
+	panic("virtual clock overrun in 60 consecutive attempts")
 }
 
 func runC18Once(raw json.RawMessage) (interface{}, bool) {
@@ -148,7 +154,7 @@ func runC18Once(raw json.RawMessage) (interface{}, bool) {
 	syncTimes := func() {
 		for cl := range rig.v.Clients() {
 			if t, ok := hbM[cl]; ok {
-				rig.v.SetHeartbeat(cl, time.Now().Add(-time.Duration(nowM-t)*time.Millisecond))
+				rig.v.SetHeartbeat(cl, time.Now().Add(-time.Duration(nowM-t)*time.Millisecond+clockBias))
 			}
 		}
 	}
